@@ -297,10 +297,121 @@ fn child_churn(args: &[String]) -> i32 {
     0
 }
 
+/// Child: a file sink whose file may not grow beyond `limit` bytes (RLIMIT_FSIZE with SIGXFSZ
+/// ignored: the kernel answers with short writes and then EFBIG).
+/// args: path kind(u8|f32) limit_bytes n seed.  Prints one JSON line.
+fn child_fsize(args: &[String]) -> i32 {
+    use rustradio::block::Block;
+    use rustradio::blocks::FileSink;
+    let path = &args[0];
+    let kind = args[1].as_str();
+    let limit: u64 = args[2].parse().unwrap();
+    let n: usize = args[3].parse().unwrap();
+    let seed: u64 = args[4].parse().unwrap();
+    rustradio::verif::set_stream_size(Some(1 << 20));
+    // the limit is set after the stream exists: its backing file is a file too
+    let set_limit = || unsafe {
+        libc::signal(libc::SIGXFSZ, libc::SIG_IGN);
+        let rl = libc::rlimit { rlim_cur: limit, rlim_max: limit };
+        libc::setrlimit(libc::RLIMIT_FSIZE, &rl);
+    };
+    macro_rules! go {
+        ($t:ty, $data:expr, $sz:expr) => {{
+            let data: Vec<$t> = $data;
+            let (w, rd) = rustradio::stream::new_stream::<$t>();
+            set_limit();
+            let mut sink = match FileSink::<$t>::new(rd, path, rustradio::file_sink::Mode::Create) {
+                Ok(s) => s,
+                Err(_) => return 3,
+            };
+            let cap = w.free();
+            let m = data.len().min(cap);
+            if m > 0 {
+                let mut wb = w.write_buf().unwrap();
+                wb.slice()[..m].copy_from_slice(&data[..m]);
+                wb.produce(m, &[]);
+            }
+            let mut results = Vec::new();
+            for _ in 0..3 {
+                let r = sink.work();
+                results.push(r.is_ok());
+                if r.is_err() {
+                    break;
+                }
+            }
+            let consumed = m - (cap - w.free());
+            let len = std::fs::metadata(path).map(|m| m.len()).unwrap_or(0);
+            println!("{}", json!({"fed": m, "consumed": consumed, "consumed_bytes": consumed * $sz, "file_len": len, "work_ok": results, "limit": limit}));
+        }};
+    }
+    match kind {
+        "u8" => go!(u8, sink_stream_u8(n, seed), 1usize),
+        _ => go!(f32, sink_stream_f32(n, seed), 4usize),
+    }
+    0
+}
+
+/// Child: no file descriptor is left for the backing file of a new stream.  The set-up must
+/// fail (or, if it succeeds by other means, the buffer must be whole).
+/// args: size_bytes.  Prints one JSON line.
+fn child_nofile(args: &[String]) -> i32 {
+    use rustradio::circular_buffer::Buffer;
+    let size: usize = args[0].parse().unwrap();
+    let base = (deleted_mappings(), open_fds());
+    // a working buffer first (everything the harness needs is set up)
+    let probe = Buffer::<u32>::new(4096).is_ok();
+    let mut old = libc::rlimit { rlim_cur: 0, rlim_max: 0 };
+    unsafe { libc::getrlimit(libc::RLIMIT_NOFILE, &mut old) };
+    // all descriptors in use: the next open() fails with EMFILE
+    let rl = libc::rlimit { rlim_cur: 0, rlim_max: old.rlim_max };
+    unsafe { libc::setrlimit(libc::RLIMIT_NOFILE, &rl) };
+    let r = Buffer::<u32>::new(size);
+    unsafe { libc::setrlimit(libc::RLIMIT_NOFILE, &old) };
+    let (ok, data_ok) = match r {
+        Err(_) => (false, true),
+        Ok(b) => {
+            let b = std::sync::Arc::new(b);
+            let want = size / 4;
+            let mut good = b.total_size() == want && b.free() == want;
+            // offset the positions so that the next window crosses the end of the mapping
+            if good && want >= 8 {
+                {
+                    let w = b.clone().write_buf().unwrap();
+                    w.produce(want - 3, &[]);
+                }
+                {
+                    let (r, _) = b.clone().read_buf().unwrap();
+                    r.consume(want - 3);
+                }
+                {
+                    let mut w = b.clone().write_buf().unwrap();
+                    good &= w.len() == want;
+                    for (i, x) in w.slice().iter_mut().enumerate() {
+                        *x = (i as u32).wrapping_mul(40503) ^ 0x77;
+                    }
+                    w.produce(want, &[]);
+                }
+                {
+                    let (r, _) = b.clone().read_buf().unwrap();
+                    r.consume(5);
+                }
+                let (r, _) = b.clone().read_buf().unwrap();
+                good &= r.len() == want - 5 && r.slice().iter().enumerate().all(|(i, x)| *x == ((i + 5) as u32).wrapping_mul(40503) ^ 0x77);
+            }
+            (true, good)
+        }
+    };
+    let after = (deleted_mappings(), open_fds());
+    println!("{}", json!({"probe_ok": probe, "setup_ok": ok, "data_ok": data_ok, "base": [base.0, base.1], "after": [after.0, after.1]}));
+    0
+}
+
 pub fn child_main(args: &[String]) -> i32 {
     let mode = args.first().map(|s| s.as_str()).unwrap_or("");
     match mode {
         "churn" => child_churn(&args[1..]),
+        "fsize" => child_fsize(&args[1..]),
+        "nofile" => child_nofile(&args[1..]),
         "rlimit" => {
             // args: headroom_kib stream_bytes rounds
             let headroom: u64 = args[1].parse().unwrap();
